@@ -11,6 +11,8 @@
 //!              transform must return an error;
 //!  * `nonint`  every cell of a categorical column replaced by a non-integer value -> fit must
 //!              return an error.
+//!  * `many-*` (round 2) the same clauses for columns / streams with 7..=20 (thorough 7..=40) distinct
+//!              categories: `many-layout`, `many-unseen`, `many-nonint`, `many-mapper`.
 //! E2 (explicit-state search over category streams): `CategoryMapper`, see `mapper.rs`.
 
 mod enc;
@@ -155,6 +157,9 @@ fn unseen_candidate(which: usize, seen: &[f64], other: &[f64]) -> f64 {
     }
 }
 const N_UNSEEN: usize = 12;
+/// Layouts (indices into `MANY_LAYOUTS`) of the many-category error-clause jobs: the categorical column
+/// between two plain columns, and two categorical columns around one plain column.
+const MANY_ERR_LAYOUTS: [usize; 2] = [2, 4];
 
 fn run_unseen(job: &Job) {
     let (p, mask, kmax, nbe, seed) = (job.u("p"), job.u("mask"), job.u("kmax"), job.u("backends"), job.u("seed") as u64);
@@ -310,6 +315,122 @@ fn judge_nonint(be: &'static dyn Backend, mut rows: Rows, cats: &[usize], given:
     mc::describe(|| json!({"backend": be.name(), "x": rows, "categorical_columns_as_given": given, "non_integer_cell": [r, col], "value": v}));
 }
 
+// ------------------------------------------------------------------------------------------------
+// many categories per column (extension, round 2): k = 7..=20 (quick) / 7..=40 (thorough)
+
+/// Draws of a many-category case that are common to the layout and the error-clause jobs.
+struct ManyCase {
+    p: usize,
+    cats: Vec<usize>,
+    given: Vec<usize>,
+    kb: usize,
+    cs: usize,
+    be: &'static dyn Backend,
+}
+
+/// Layout jobs: the second categorical column (if any) has 2 or k categories and the index list is
+/// given sorted or reversed; error-clause jobs: k categories in both columns, sorted index list.
+fn draw_many(job: &Job, err: bool) -> ManyCase {
+    let (k, li, nbe) = (job.u("k"), job.u("layout"), job.u("backends"));
+    let (p, cats) = MANY_LAYOUTS[li];
+    let two = cats.len() == 2;
+    let kb = match (two, err) {
+        (false, _) => 0,
+        (true, true) => k,
+        (true, false) => [2, k][mc::choose(2)],
+    };
+    let rev = two && !err && mc::choose(2) == 1;
+    let cs = mc::choose(N_MANY_CODE_SCHEMES);
+    let be = BACKENDS[mc::choose(nbe)];
+    let given: Vec<usize> = if rev { cats.iter().rev().copied().collect() } else { cats.to_vec() };
+    ManyCase { p, cats: cats.to_vec(), given, kb, cs, be }
+}
+
+fn run_many_layout(job: &Job) {
+    let (k, seed) = (job.u("k"), job.u("seed") as u64);
+    let c = draw_many(job, false);
+    let pattern = mc::choose(n_many_row_patterns(k));
+    let ids = many_ids(k, pattern);
+    let n = ids.len();
+    let rows = many_rows(c.p, &c.cats, &ids, k, c.kb, c.cs, seed);
+    // non-vacuity: the matrix really has k distinct categories in column A (and kb in column B)
+    let fa = first_appearance(&rows, c.cats[0]);
+    assert!(fa.len() == k && (c.cats.len() == 1 || first_appearance(&rows, c.cats[1]).len() == c.kb), "many-category generator is broken: k={} pattern={} cs={}", k, pattern, c.cs);
+    mc::count("many_layout_cases");
+    match n {
+        _ if n == k => mc::count("many_every_category_once"),
+        _ if n == k + 1 => mc::count("many_one_category_repeated"),
+        _ => mc::count("many_every_category_twice"),
+    }
+    if fa.windows(2).any(|w| w[0] > w[1]) {
+        mc::count("many_first_appearance_not_numeric_order");
+    }
+    if c.cats.len() == 2 {
+        mc::count("many_two_categorical_columns");
+    }
+    if c.p > c.cats.len() {
+        mc::count("many_with_pass_through_columns");
+    }
+    if k >= 16 {
+        mc::count("many_k_at_least_16");
+    }
+    let out = check_fit_transform(c.be, &rows, &c.cats, &c.given);
+    mc::nontrivial();
+    mc::outcome(out.as_ref().map(digest_rows).unwrap_or(0xdead));
+    mc::describe(|| {
+        let mut d = describe_case(c.be, &rows, &c.cats, &c.given, &out);
+        d["k"] = json!(k);
+        d["row_pattern"] = json!(pattern);
+        d["code_scheme"] = json!(c.cs);
+        d
+    });
+}
+
+fn run_many_unseen(job: &Job) {
+    let (k, seed) = (job.u("k"), job.u("seed") as u64);
+    let c = draw_many(job, true);
+    let ids = many_ids(k, many_err_pattern(k, mc::choose(MANY_ERR_PATTERNS)));
+    let rows = many_rows(c.p, &c.cats, &ids, k, c.kb, c.cs, seed);
+    let i = mc::choose(c.cats.len());
+    let r = mc::choose(rows.len());
+    let which = mc::choose(N_UNSEEN);
+    judge_unseen(c.be, &rows, &c.cats, &c.given, i, r, which, true);
+}
+
+fn run_many_nonint(job: &Job) {
+    let (k, seed) = (job.u("k"), job.u("seed") as u64);
+    let c = draw_many(job, true);
+    let ids = many_ids(k, many_err_pattern(k, mc::choose(MANY_ERR_PATTERNS)));
+    let rows = many_rows(c.p, &c.cats, &ids, k, c.kb, c.cs, seed);
+    let i = mc::choose(c.cats.len());
+    let r = mc::choose(rows.len());
+    let delta = mc::pick(&NONINT_DELTAS);
+    judge_nonint(c.be, rows, &c.cats, &c.given, i, r, delta, true);
+}
+
+fn run_mapper_many(job: &Job) {
+    let ty = Ty::parse(job.s("ty"));
+    let k = job.u("k");
+    let order = mc::choose(mapper::N_MANY_ORDERS);
+    let pattern = mc::choose(n_many_row_patterns(k));
+    let letters = mapper::many_stream(k, order, pattern);
+    let (viols, digest) = mapper::check_many(ty, k, &letters);
+    for v in viols {
+        mc::violation(v.site, v.what);
+    }
+    mc::count("many_mapper_cases");
+    if letters.len() > k {
+        mc::count("many_mapper_stream_with_repeats");
+    }
+    if order > 0 {
+        mc::count("many_mapper_order_not_identity");
+    }
+    mc::nontrivial();
+    mc::outcome(digest);
+    let order_name = ["identity", "reversed", "stride-coprime"][order];
+    mc::describe(|| json!({"type": ty.name(), "k": k, "order": order_name, "row_pattern": pattern, "stream_of_letter_indices": letters, "stream": mapper::show_many(ty, &letters)}));
+}
+
 fn run_mapper_replay(job: &Job) {
     let ty = Ty::parse(job.s("ty"));
     let letters = job.u("letters");
@@ -396,6 +517,23 @@ impl Harness for C18 {
                 }
             }
         }
+        // ---- many categories per column (round 2): every k in 7..=20 (quick) / 7..=40 (thorough)
+        let k_many = if t { 40 } else { 20 };
+        assert!(many_tables_ok(128) && mapper::many_letters_ok(k_many + 2), "many-category code tables are not pairwise distinct");
+        for k in MANY_K..=k_many {
+            for li in 0..MANY_LAYOUTS.len() {
+                jobs.push(Job::new(format!("many-layout-k{}-l{}", k, li), json!({"kind": "many-layout", "k": k, "layout": li, "backends": nbe, "seed": seed})));
+            }
+            for ty in [Ty::U16, Ty::Str] {
+                jobs.push(Job::new(format!("many-mapper-{}-k{}", ty.name(), k), json!({"kind": "many-mapper", "ty": ty.name(), "k": k})));
+            }
+        }
+        for k in MANY_K..=k_many {
+            for li in MANY_ERR_LAYOUTS {
+                jobs.push(Job::new(format!("many-unseen-k{}-l{}", k, li), json!({"kind": "many-unseen", "k": k, "layout": li, "backends": nbe, "seed": seed})));
+                jobs.push(Job::new(format!("many-nonint-k{}-l{}", k, li), json!({"kind": "many-nonint", "k": k, "layout": li, "backends": nbe, "seed": seed})));
+            }
+        }
         Plan {
             jobs,
             budget_s: if t { 2400 } else { 40 },
@@ -425,6 +563,24 @@ impl Harness for C18 {
                 ("mapper_first_appearance_not_sorted", 1_000),
                 ("mapper_unseen_letter_exists", 100),
                 ("mapper_extension_by_seen_category", 500),
+                // many categories per column (round 2); quick-tier counts are 1.3x .. 4x these
+                ("many_layout_cases", 200_000),
+                ("many_every_category_once", 2_000),
+                ("many_one_category_repeated", 200_000),
+                ("many_every_category_twice", 6_000),
+                ("many_first_appearance_not_numeric_order", 150_000),
+                ("many_two_categorical_columns", 150_000),
+                ("many_with_pass_through_columns", 200_000),
+                ("many_k_at_least_16", 100_000),
+                ("many_unseen_rejected", 100_000),
+                ("many_unseen_integer_cases", 100_000),
+                ("many_unseen_invalid_cases", 70_000),
+                ("many_unseen_collapsing_cases", 100_000),
+                ("many_nonint_rejected", 100_000),
+                ("many_nonint_negative", 1_000),
+                ("many_mapper_cases", 9_000),
+                ("many_mapper_stream_with_repeats", 9_000),
+                ("many_mapper_order_not_identity", 6_000),
             ],
             bounds: json!({
                 "layout": format!("every p<={}, every subset of categorical columns, every category-count vector in {{1..{}}}^|S|, index list in every order for |S|<={} (else sorted, reversed, rotated, evens-then-odds, first-two-swapped), 3 code schemes x 3 row schemes (n = kk+1, kk, 2kk rows where kk = largest category count), {} backends", p_all, kmax, full, nbe),
@@ -433,6 +589,9 @@ impl Harness for C18 {
                 "unseen": format!("p<={} (quick: k<=2 at p=4): every non-empty subset x k in {{1,2,3}}^|S| x every cell of every categorical column x 12 replacement values (unseen integer codes, codes of the neighbouring column, non-integers, negatives, >65535)", p_err),
                 "non_integer_fit": format!("p<={}: every non-empty subset x k x every cell of every categorical column x 8 fractional offsets", p_err),
                 "mapper_e2": format!("CategoryMapper over every stream of length <={} on {} letters (u16 and String categories), from_category_map for every bijection", if t { 7 } else { 6 }, if t { 4 } else { 3 }),
+                "many_categories_onehot": format!("every k in 7..={}: layouts [C], [C,P,P], [P,C,P], [P,P,C], [C,P,C], [P,C,P,C,P] (C categorical with k categories; in the two-categorical layouts the second one has 2 or k categories in a reversed sweep and the index list is given sorted or reversed) x row patterns: n=k every category once, n=k+1 one extra copy of category c at row q for EVERY (c,q) with c<q<=k, n=2k pairs / sweep+reversed sweep / sweep+stride-coprime sweep x 4 code schemes (identity 0..k-1, numerically descending, contiguous codes in stride-coprime order, scrambled codes over the whole u16 range incl. 0 and 65535) x {} backends; judged by the same reference encoder (shape, first-appearance order, exactly one 1 per row, pass-through columns bit for bit, index-order independence)", k_many, nbe),
+                "many_categories_error_clauses": format!("every k in 7..={}: layouts [P,C,P] and [C,P,C] (k categories each) x row patterns n=k, n=k+1 (category 0 repeated in the last row), n=2k pairs x 4 code schemes x {} backends x every cell of every categorical column x (12 replacement values -> transform must return Err | 8 fractional offsets -> fit must return Err)", k_many, nbe),
+                "many_categories_mapper": format!("CategoryMapper, u16 and String categories, every k in 7..={}: streams whose first-appearance order is the identity / reversed / stride-coprime order of the k letters x the same row patterns (all distinct; one extra copy of category c at position q for every c<q<=k; every category twice in 3 arrangements); fit_to_iter, from_positional_category_vec and from_category_map (bijections identity, reversed, stride-coprime, rotated by one) all checked for get_num/get_cat/get_one_hot/invert_one_hot/get_ordinal mutually inverse, indices = first appearance / given positions, two never-seen letters -> None", k_many),
                 "seed": format!("VERIF_SEED={} selects the code offset / table rotation / plain-value shift of the alphabets", seed),
             }),
         }
@@ -445,6 +604,10 @@ impl Harness for C18 {
             "unseen" => run_unseen(job),
             "nonint" => run_nonint(job),
             "mapper" => run_mapper_replay(job),
+            "many-layout" => run_many_layout(job),
+            "many-unseen" => run_many_unseen(job),
+            "many-nonint" => run_many_nonint(job),
+            "many-mapper" => run_mapper_many(job),
             other => panic!("unknown job kind {}", other),
         }
     }
@@ -464,7 +627,7 @@ impl Harness for C18 {
     }
 
     fn rule(&self) -> String {
-        "one E1 execution = one (matrix, categorical index list, backend) run through the real fit (+ transform); non-trivial = at least one categorical column (layout / first-appearance cases) or an error clause exercised; distinct = distinct digest of the returned matrix / error verdict. E2 states = category streams, each judged on the real CategoryMapper built three ways".into()
+        "one E1 execution = one (matrix, categorical index list, backend) run through the real fit (+ transform); non-trivial = at least one categorical column (layout / first-appearance cases) or an error clause exercised; distinct = distinct digest of the returned matrix / error verdict. E2 states = category streams, each judged on the real CategoryMapper built three ways; the many-category mapper jobs are E1 executions (one stream each) judged by the same clauses".into()
     }
 
     fn assumptions(&self) -> Vec<String> {
